@@ -219,6 +219,32 @@ class Gen:
             hist.append(self.header(2, len(ds)) + ds)
         return hist
 
+    # RFC 5610 informationElementDataType codes (IANA registry "IPFIX Information Element Data Types")
+    RFC5610 = {"octetArray": 0, "unsigned8": 1, "unsigned16": 2, "unsigned32": 3, "unsigned64": 4, "signed8": 5, "signed16": 6,
+               "signed32": 7, "signed64": 8, "float32": 9, "float64": 10, "boolean": 11, "macAddress": 12, "string": 13,
+               "dateTimeSeconds": 14, "dateTimeMilliseconds": 15, "dateTimeMicroseconds": 16, "dateTimeNanoseconds": 17,
+               "ipv4Address": 18, "ipv6Address": 19, "basicList": 20, "subTemplateList": 21, "subTemplateMultiList": 22}
+
+    def type_information(self):
+        """an exporter that describes its information elements (RFC 5610): the options template [scope privateEnterpriseNumber,
+        informationElementId | informationElementDataType, informationElementSemantics, informationElementName] and one
+        truthful record for EVERY element of the snapshot.  A collector may ignore them or learn from them; what it must not
+        do is decode the elements differently afterwards.  IPFIX only."""
+        tpl = {"id": 700, "scope": [{"e": 346, "l": 4, "pen": 0, "t": "unsigned32"}, {"e": 303, "l": 2, "pen": 0, "t": "unsigned16"}],
+               "fields": [{"e": 339, "l": 1, "pen": 0, "t": "unsigned8"}, {"e": 344, "l": 1, "pen": 0, "t": "unsigned8"},
+                          {"e": 341, "l": VARLEN, "pen": 0, "t": "string"}]}
+        ts = self.enc_set(3, self.enc_tpl_rec(tpl), 0)
+        msgs = [self.header(1, len(ts)) + ts]
+        ids = sorted(self.model)
+        for k in range(0, len(ids), 60):
+            recs = []
+            for e in ids[k:k + 60]:
+                name = [ord(c) for c in "element%d" % e]
+                recs += u32(0) + u16(e) + [self.RFC5610[self.model[e]], 0] + [len(name)] + name
+            ds = self.enc_set(700, recs, 0)
+            msgs.append(self.header(2, len(ds)) + ds)
+        return msgs
+
     def history(self, nmsgs, budget=1400):
         """one exporter's history: templates announced, re-announced, data, undecodable sets"""
         r = self.rng
